@@ -39,8 +39,8 @@ def check(run):
 
     from .c06 import depends_on
     depends_on(run, "C10")
-    depends_on(run, "C12", {"TYPESTATE", "NOMUT"})
-    depends_on(run, "C06", {"MERGE", "KEYS", "COUNT", "VALUE"})
+    depends_on(run, "C12", {"TYPESTATE", "NOMUT", "COPY"})
+    depends_on(run, "C06", {"MERGE", "KEYS", "COUNT", "VALUE", "COPY"})
     depends_on(run, "C15", {"STORAGE", "DEFAULTS", "CTOR"}, only=lambda rule, inst: inst.startswith("IncrementalPFI"))
     # ---- the per-feature loop --------------------------------------------------------------------
     imps = [(ev, ctx) for ev, ctx in walk(s.events) if is_call_to(ev, inc.imf, "impute")]
